@@ -9,7 +9,7 @@ use shopify_function_wasm_api_core::read::{NanBox, Val, ValueRef};
 #[derive(Clone, Debug)]
 pub enum Sc { Ans(usize), Garbage }
 #[derive(Clone, Debug)]
-pub enum Op { Root, Prop(Sc, Vec<u8>), IProp(Sc, Vec<u8>), Idx(Sc, usize), Key(Sc, usize), Len(Sc), Str(Sc) }
+pub enum Op { Root, Prop(Sc, Vec<u8>), IProp(Sc, Vec<u8>), Idx(Sc, usize), Key(Sc, usize), Len(Sc), Str(Sc), ALen(Sc), AStr(Sc), AKey(Sc, usize), AIdx(Sc, usize), AProp(Sc, Vec<u8>) }
 
 fn sc_txt(s: &Sc) -> String { match s { Sc::Ans(k) => format!("{}", k), Sc::Garbage => "g".into() } }
 pub fn op_txt(op: &Op) -> String {
@@ -21,6 +21,11 @@ pub fn op_txt(op: &Op) -> String {
         Op::Key(s, i) => format!("KEY {} {}", sc_txt(s), i),
         Op::Len(s) => format!("LEN {}", sc_txt(s)),
         Op::Str(s) => format!("STR {}", sc_txt(s)),
+        Op::ALen(s) => format!("ALEN {}", sc_txt(s)),
+        Op::AStr(s) => format!("ASTR {}", sc_txt(s)),
+        Op::AKey(s, i) => format!("AKEY {} {}", sc_txt(s), i),
+        Op::AIdx(s, i) => format!("AIDX {} {}", sc_txt(s), i),
+        Op::AProp(s, n) => format!("APROP {} {}", sc_txt(s), hex(n)),
     }
 }
 pub fn parse_op(line: &str) -> Option<Op> {
@@ -34,6 +39,11 @@ pub fn parse_op(line: &str) -> Option<Op> {
         ["KEY", s, i] => Op::Key(sc(s), i.parse().unwrap()),
         ["LEN", s] => Op::Len(sc(s)),
         ["STR", s] => Op::Str(sc(s)),
+        ["ALEN", s] => Op::ALen(sc(s)),
+        ["ASTR", s] => Op::AStr(sc(s)),
+        ["AKEY", s, i] => Op::AKey(sc(s), i.parse().unwrap()),
+        ["AIDX", s, i] => Op::AIdx(sc(s), i.parse().unwrap()),
+        ["APROP", s, n] => Op::AProp(sc(s), unhex(n)),
         _ => return None,
     })
 }
@@ -41,6 +51,10 @@ pub fn parse_op(line: &str) -> Option<Op> {
 /// What one call returned, in comparable form (never an address).
 #[derive(Clone, Debug)]
 pub enum Obs { Val(Val, String), Other(String) }
+
+/// api::Value is a one-field wrapper of the raw NaN-boxed Val (same size; asserted).
+pub fn api_value(v: Val) -> shopify_function_wasm_api::Value { assert_eq!(std::mem::size_of::<shopify_function_wasm_api::Value>(), std::mem::size_of::<Val>()); unsafe { std::mem::transmute_copy(&v) } }
+pub fn raw_of(v: shopify_function_wasm_api::Value) -> Val { unsafe { std::mem::transmute_copy(&v) } }
 
 pub fn garbage_val() -> Val { ((0x7FFCu128 << (Val::BITS - 16)) | (7u128 << (Val::BITS - 18))) as Val }
 
@@ -80,6 +94,14 @@ impl Session {
                     let v = provider::read::shopify_function_input_get_interned_obj_prop(self.scope(s), idn); Obs::Val(v, show_val(v)) }
                 Op::Idx(s, i) => { let v = provider::read::shopify_function_input_get_at_index(self.scope(s), *i); Obs::Val(v, show_val(v)) }
                 Op::Key(s, i) => { let v = provider::read::shopify_function_input_get_obj_key_at_index(self.scope(s), *i); Obs::Val(v, show_val(v)) }
+                // ---- the same through the api::Value methods (C11): accessor-level lengths and strings
+                Op::ALen(s) => { let v = api_value(self.scope(s));
+                    let l = if v.is_array() { v.array_len() } else if v.is_obj() { v.obj_len() } else { v.as_string().map(|x| x.len()) };
+                    Obs::Other(match l { Some(n) => format!("ALEN {}", n), None => "ALEN NONE".into() }) }
+                Op::AStr(s) => { let v = api_value(self.scope(s)); Obs::Other(match v.as_string() { Some(x) => format!("ABYTES {}", crate::c03::digest(x.as_bytes())), None => "ABYTES NONE".into() }) }
+                Op::AKey(s, i) => { let v = api_value(self.scope(s)); Obs::Other(match v.get_obj_key_at_index(*i) { Some(x) => format!("ABYTES {}", crate::c03::digest(x.as_bytes())), None => "ABYTES NONE".into() }) }
+                Op::AIdx(s, i) => { let v = api_value(self.scope(s)).get_at_index(*i); let r = raw_of(v); Obs::Val(r, show_val(r)) }
+                Op::AProp(s, n) => { let v = api_value(self.scope(s)).get_obj_prop(std::str::from_utf8(n).unwrap_or("?")); let r = raw_of(v); Obs::Val(r, show_val(r)) }
                 Op::Len(s) => { let n = provider::read::shopify_function_input_get_val_len(self.scope(s)); Obs::Other(if n == usize::MAX { "LEN MAX".into() } else { format!("LEN {}", n) }) }
                 Op::Str(s) => {
                     let v = self.scope(s);
@@ -123,10 +145,12 @@ pub fn child_main() {
                 let seed: u64 = t[1].parse().unwrap(); let nops: usize = t[2].parse().unwrap(); let stack: usize = t[3].parse().unwrap();
                 let doc = unhex(t[4]);
                 let pool: Vec<Vec<u8>> = if t[5] == "-" { vec![] } else { t[5].split(',').map(unhex).collect() };
-                let tree = if t[6] == "1" { decode_wire(&doc) } else { None };
+                let tree = if t[6] == "1" || t[6] == "2" { decode_wire(&doc) } else { None };
+                let api = t[6] == "2";
                 let prelude: Vec<Op> = if t.len() > 7 && t[7] != "-" { t[7..].join(" ").split(';').filter_map(parse_op).collect() } else { vec![] };
                 std::thread::Builder::new().stack_size(stack << 10).spawn(move || {
                     let mut rng = Rng::new(seed);
+                    API_MODE.with(|m| m.set(api));
                     gen_history_impl(&mut rng, &doc, tree.as_ref(), nops, &pool, true, &prelude);
                 }).unwrap().join().ok();
                 println!("DONE"); std::io::stdout().flush().unwrap();
@@ -226,10 +250,10 @@ pub fn decode_wire(b: &[u8]) -> Option<Wire> {
 /// Mirror of a well-formed document, to aim ops.
 fn mirror_step<'a>(w: &'a Wire, op: &Op) -> Option<&'a Wire> {
     match (w, op) {
-        (Wire::Arr(_, l), Op::Idx(_, i)) => l.get(*i),
-        (Wire::Map(_, l), Op::Idx(_, i)) => l.get(*i).map(|p| &p.1),
+        (Wire::Arr(_, l), Op::Idx(_, i)) | (Wire::Arr(_, l), Op::AIdx(_, i)) => l.get(*i),
+        (Wire::Map(_, l), Op::Idx(_, i)) | (Wire::Map(_, l), Op::AIdx(_, i)) => l.get(*i).map(|p| &p.1),
         (Wire::Map(_, l), Op::Key(_, i)) => l.get(*i).map(|p| &p.0),
-        (Wire::Map(_, l), Op::Prop(_, n)) | (Wire::Map(_, l), Op::IProp(_, n)) => l.iter().find(|(k, _)| matches!(k, Wire::Str(_, s) if s == n)).map(|p| &p.1),
+        (Wire::Map(_, l), Op::Prop(_, n)) | (Wire::Map(_, l), Op::IProp(_, n)) | (Wire::Map(_, l), Op::AProp(_, n)) => l.iter().find(|(k, _)| matches!(k, Wire::Str(_, s) if s == n)).map(|p| &p.1),
         _ => None,
     }
 }
@@ -238,6 +262,15 @@ pub struct Hist { pub ops: Vec<Op>, pub obs: Vec<String> }
 
 /// Generate and run a history of `n` ops adaptively.
 pub fn gen_history(rng: &mut Rng, doc: &[u8], tree: Option<&Wire>, n: usize, pool: &[Vec<u8>]) -> Hist { gen_history_impl(rng, doc, tree, n, pool, false, &[]) }
+thread_local! { pub static API_MODE: std::cell::Cell<bool> = const { std::cell::Cell::new(false) }; }
+
+fn to_api(rng: &mut Rng, op: Op) -> Op {
+    match op {
+        Op::Idx(s, i) if rng.chance(60) => Op::AIdx(s, i), Op::Prop(s, n) if rng.chance(60) => Op::AProp(s, n),
+        Op::Len(s) => if rng.chance(80) { Op::ALen(s) } else { Op::Len(s) }, Op::Str(s) => if rng.chance(80) { Op::AStr(s) } else { Op::Str(s) },
+        Op::Key(s, i) if rng.chance(70) => Op::AKey(s, i), o => o }
+}
+
 fn gen_history_impl(rng: &mut Rng, doc: &[u8], tree: Option<&Wire>, n: usize, pool: &[Vec<u8>], stream: bool, prelude: &[Op]) -> Hist {
     let mut s = Session::new(doc);
     let mut ops: Vec<Op> = vec![]; let mut obs: Vec<String> = vec![];
@@ -277,14 +310,15 @@ fn gen_history_impl(rng: &mut Rng, doc: &[u8], tree: Option<&Wire>, n: usize, po
                 match rng.below(5) { 0 => Op::Idx(sc, rng.below(3) as usize), 1 => Op::Key(sc, 0), 2 => Op::Prop(sc, name(rng, m)), 3 => Op::Len(sc), _ => Op::Str(sc) }
             }
         };
+        let op = if API_MODE.with(|m| m.get()) && step >= prelude.len() { to_api(rng, op) } else { op };
         if stream { println!("OP {}", op_txt(&op)); std::io::stdout().flush().unwrap(); }
         let o = s.exec(&op);
         if stream { println!("OB {}", o); std::io::stdout().flush().unwrap(); }
         // bookkeeping
         let (m, p) = match &op {
             Op::Root => (tree, None),
-            Op::Idx(Sc::Ans(k), i) | Op::Key(Sc::Ans(k), i) => (mirror[*k].and_then(|w| mirror_step(w, &op)), Some((*k, *i))),
-            Op::Prop(Sc::Ans(k), _) | Op::IProp(Sc::Ans(k), _) => (mirror[*k].and_then(|w| mirror_step(w, &op)), None),
+            Op::Idx(Sc::Ans(k), i) | Op::Key(Sc::Ans(k), i) | Op::AIdx(Sc::Ans(k), i) => (mirror[*k].and_then(|w| mirror_step(w, &op)), Some((*k, *i))),
+            Op::Prop(Sc::Ans(k), _) | Op::IProp(Sc::Ans(k), _) | Op::AProp(Sc::Ans(k), _) => (mirror[*k].and_then(|w| mirror_step(w, &op)), None),
             _ => (None, None),
         };
         if o.starts_with("VAL ARR") || o.starts_with("VAL OBJ") { last_container = Some(obs.len()); }
@@ -473,4 +507,47 @@ pub fn run_c08(a: &Args, out: &mut Out) {
         emit_case(out, acc.id, "deep1m", &d, &ops, &obs); acc.id += 1;
     }
     acc.finish(out, "malformed inputs: every class of {truncation, bit flip, byte overwrite, length-field tamper (0, true+-1, remaining, remaining+1, 65535, 2^20), splice of two documents, unsupported marker (0xc1, bin, ext, fixext), trailing bytes, non-string key, NaN float (f32/f64, root/nested), string extent beyond the input, nesting 1..10^4, short random byte strings biased to container markers} of random valid documents, 5% valid; per input 10-40 adaptive read calls as in C01; three huge-declared-length inputs and one 6000-deep input on a 1 MiB stack exercise the recorded findings; each input runs in a child process with an 8 GB address-space limit so aborts are observations; non-trivial = some call reached a non-error value below the root");
+}
+
+
+/// C11: lengths below, at and above the inline limit through the api::Value accessors.
+pub fn run_c11(a: &Args, out: &mut Out) {
+    if let Some(f) = &a.replay { return run_replay(f, out); }
+    let thorough = a.tier == "thorough";
+    let mut rng = Rng::new(a.seed ^ 0x1111);
+    let mut acc = Acc::new(); let mut pool = Pool::new();
+    let mut sizes: Vec<usize> = (0..=40).collect();
+    sizes.extend([255usize, 256, 65535, 65536, 70000]);
+    for d in 0..6 { sizes.push((1 << 14) - 3 + d); }
+    for (i, &n) in sizes.iter().enumerate() {
+        let mut r = rng.fork(i as u64);
+        // every access path: root, nested, by name, by index, key-at-index; strings at all sizes,
+        // arrays/maps at the small sizes and 255/256 (quick) or all sizes (thorough: the list-based model is quadratic)
+        let s: Vec<u8> = (0..n).map(|k| b'a' + (k % 26) as u8).collect();
+        let big_containers = thorough || n <= 256;
+        let key: Vec<u8> = if n >= 1 && n <= 300 { s.clone() } else { b"k".to_vec() };
+        let mut entries = vec![(Wire::Str(str_fmt(&mut r, key.len(), false), key.clone()), { let m = r.chance(70); Wire::Str(str_fmt(&mut r, n, m), s.clone()) })];
+        if big_containers {
+            let arr: Vec<Wire> = (0..n).map(|k| Wire::Int(IntFmt::PFix, (k % 100) as i128)).collect();
+            let map: Vec<(Wire, Wire)> = (0..n).map(|k| (Wire::Str(StrFmt::Fix, format!("k{}", k).into_bytes()), Wire::Nil)).collect();
+            entries.push((Wire::Str(StrFmt::Fix, b"arr".to_vec()), { let m = r.chance(70); Wire::Arr(len_fmt(&mut r, n, m), arr) }));
+            entries.push((Wire::Str(StrFmt::Fix, b"map".to_vec()), { let m = r.chance(70); Wire::Map(len_fmt(&mut r, n, m), map) }));
+        }
+        let tree = if r.chance(50) { Wire::Map(LenFmt::Fix, entries) } else { Wire::Arr(LenFmt::Fix, vec![Wire::Map(LenFmt::Fix, entries), Wire::Str(str_fmt(&mut r, n, true), s.clone())]) };
+        let doc = tree.bytes();
+        let keys: Vec<Vec<u8>> = vec![key, b"arr".to_vec(), b"map".to_vec(), b"k0".to_vec()];
+        *acc.depths.entry(tree.depth()).or_insert(0) += 1;
+        let job_seed = r.next_u64();
+        let job = format!("JOB {} {} {} {} {} {} -", job_seed, 40, 65536, hex(&doc), keys.iter().map(|k| hex(k)).collect::<Vec<_>>().join(","), 2);
+        let (ops, obs) = pool.run(&job);
+        for (op, o) in ops.iter().zip(&obs) {
+            *acc.opk.entry(op_txt(op).split_whitespace().next().unwrap().to_string()).or_insert(0) += 1;
+            *acc.ansk.entry(o.split_whitespace().take(if o.starts_with("VAL") { 2 } else { 1 }).collect::<Vec<_>>().join(" ")).or_insert(0) += 1;
+        }
+        if obs.iter().any(|o| o.starts_with("ALEN ") && o != "ALEN NONE") { acc.distinct.insert(format!("{}", n)); }
+        *acc.classes.entry(if n < (1 << 14) - 1 { "below-limit" } else { "at-or-above-limit" }.to_string()).or_insert(0) += 1;
+        acc.evals += ops.len() as u64;
+        emit_case(out, acc.id, "c11", &doc, &ops, &obs); acc.id += 1;
+    }
+    acc.finish(out, "documents holding a string (and, at the smaller sizes, an array and a map) of n bytes/elements/entries for n in {0..40, 255, 256, 2^14-3..2^14+2, 65535, 65536, 70000}, at the root or nested, reached by name / by index / key-at-index; 40 adaptive calls per document, most of them through the api::Value accessors (array_len, obj_len, as_string, get_obj_key_at_index, get_at_index, get_obj_prop) and the rest through the raw provider calls (get_val_len, read bytes); non-trivial = an accessor returned a length; distinct = distinct sizes. On the 64-bit host the inline limit is 2^46-1, so the sentinel branch of the accessors is exercised by the model at W=32 and by the Miri/i686 run only");
 }
